@@ -41,7 +41,7 @@ func init() { core.Register(c03{}) }
 func (c03) ID() string    { return "C03" }
 func (c03) Level() string { return "exploration" }
 func (c03) Rule() string {
-	return "programs: a populated deployment whose main bucket gets a seeded owner, a seeded ACL (user grant of one permission, canned public ACLs, or private) and in half the runs a generated valid policy of 1-4 statements (Allow/Deny; principals */ids; exact, s3:* and prefix-* actions; bucket and object resources with globs); then 6-20 requests by non-admin (and some admin) callers over every S3 route-table entry incl. batch delete with mixed keys and copies whose source is in another bucket, routed over 1-3 instances with an optional restart after the settings were written; one-directional oracle from the statement: model says NOT authorised => 403, storage snapshot unchanged, forbidden batch-delete keys survive, no canary in the response; distinct = (route, caller class, policy present, decided-by)"
+	return "programs: a populated deployment whose main bucket gets a seeded owner, a seeded ACL (user grant of one permission, canned public ACLs, or private) and in half the runs a generated valid policy of 1-4 statements (Allow/Deny; principals */ids; exact, s3:* and prefix-* actions; bucket and object resources with globs); then 6-20 requests by non-admin (and some admin) callers over every S3 route-table entry incl. batch delete with mixed keys and copies whose source is in another bucket, routed over 1-3 instances with an optional restart after the settings were written; one-directional oracle from the statement: model says NOT authorised => 403, storage snapshot unchanged, forbidden batch-delete keys survive, no canary in the response; distinct = (route, caller class, policy present, decided-by); a fifth of the runs: settings-replacement race (policy or ACL replaced by an equally strict one while a caller neither admits sends get/put/delete/list/get-tagging, rand/PCT schedules, 1-2 gateway processes; every such request must be refused, nothing planted or removed)"
 }
 func (c03) Runs(tier string) int {
 	if tier == "thorough" {
